@@ -714,7 +714,7 @@ func TestVerifC17(t *testing.T) {
 	debug.SetGCPercent(800) // the modeenv parser allocates 64k scanner buffers per read
 	c := kit.New("C17", "fault_enumeration")
 	defer c.Done(t)
-	c.Rule("case = (configuration in {uc16-env, uc20-grub, uc20-notscriptable}) x event script: 4..8 generated events over {set-next kernel/base rev 1..3 (try), undo/revert (BootWithoutTry), snapd-requested reboot, power cycle, boot dying after firmware / after the initramfs status update / after the initramfs snap selection, reboot before mark-successful, snapd restart (mark-successful without reboot)} resolved against the state as snapd would issue them (mark-successful first after each boot, one trial per type, undo targets the armed trial or the previously good revision), plus automatic boots/marks and a fixed settle suffix; 54 directed scripts (canonical refresh / failed refresh / undo / revert stories) precede the random ones on shard 0. For every operation on a path with crash budget left the operation is re-run from the same persistent snapshot once per crash point (before and after every numbered boot-state write; boots: once per stage) and the remaining script runs from each distinct cut state. Non-trivial = a power loss was injected on a path that had a trial armed or try-booted; distinct = signature of (configuration, resolved main-path operations and boot outcomes).")
+	c.Rule("case = (configuration in {uc16-env, uc20-grub, uc20-notscriptable}) x event script: 4..8 generated events over {set-next kernel/base rev 1..3 (try), undo/revert (BootWithoutTry), snapd-requested reboot, power cycle, boot dying after firmware / after the initramfs status update / after the initramfs snap selection, reboot before mark-successful, snapd restart (mark-successful without reboot)} resolved against the state as snapd would issue them (mark-successful first after each boot, one trial per type, undo targets the armed trial or the previously good revision), plus automatic boots/marks and a fixed settle suffix; 29 directed scripts (canonical refresh / failed refresh / undo / revert stories, each in all three configurations) precede the random ones on shard 0. For every operation on a path with crash budget left the operation is re-run from the same persistent snapshot once per crash point (before and after every numbered boot-state write; boots: once per stage) and the remaining script runs from each distinct cut state. Non-trivial = a power loss was injected on a path that had a trial armed or try-booted; distinct = signature of (configuration, resolved main-path operations and boot outcomes).")
 	c.Assume("bootloader environment rewrite (SetBootVars / SetBootVarsFromInitramfs) and each kernel.efi/try-kernel.efi link operation are atomic single boot-state writes; modeenv writes are atomic renames (osutil.AtomicWriteFile)")
 	c.Assume("firmware models: UC16/18 classic try->trying script; UC20 scriptable = transcription of bootloader/assets/data/grub.cfg (kernel_status try->trying + try-kernel.efi, trying->'', dangling try-kernel.efi -> fallback menu entry reboots); UC20 not scriptable = piboot-style one-shot tryboot: only a snapd-requested reboot whose RebootBootloader.GetRebootArguments() contains 'tryboot' loads snap_try_kernel with kernel_status=trying on the command line, every other start loads snap_kernel")
 	c.Assume("a boot that dies is either a try boot or a transient power loss; a known-good kernel/base that never boots again is outside the property")
@@ -750,7 +750,7 @@ func TestVerifC17(t *testing.T) {
 	if shard == 0 {
 		nDirected = len(directed) * int(nCfg)
 	}
-	nRandom := kit.Scale(90, 700) * int(nCfg)
+	nRandom := kit.Scale(90, 400) * int(nCfg)
 	only := kit.OnlyCase()
 	var perCfg [nCfg]stats
 	var seqs [nCfg]int
